@@ -43,6 +43,7 @@ fn size_of(run: &IoRun) -> usize {
         + run.records.len()
         + run.chan.len()
         + run.datagrams.len()
+        + run.uncompressed.len()
         + run.fault_count()
         + run
             .records
@@ -95,6 +96,13 @@ pub fn minimise(run: &IoRun, prop: &str, inv: &str) -> IoRun {
             i -= 1;
             let mut c = cur.clone();
             c.datagrams.remove(i);
+            try_edit!(c);
+        }
+        let mut i = cur.uncompressed.len();
+        while i > 0 {
+            i -= 1;
+            let mut c = cur.clone();
+            c.uncompressed.remove(i);
             try_edit!(c);
         }
         let mut i = cur.pool.len();
